@@ -129,7 +129,9 @@ def step (j : J) (o : Obs) : J :=
   | .setExpire e => { j with absExp := some e }
   | .skipArm => { j with skipArmed := true }
   | .subCall k =>
-    { j with ops := { kind := k, tsub := j.now, tmo := j.tmo, absExp := j.absExp, aborts := j.openCodes } :: j.ops }
+    -- (an abort still in flight at the start may hit this operation: its code, ETIMEDOUT included, is the user's)
+    { j with ops := { kind := k, tsub := j.now, tmo := j.tmo, absExp := j.absExp, aborts := j.openCodes,
+                      userTimeout := j.openCodes.contains ETIMEDOUT } :: j.ops }
   | .subRet v =>
     -- (a start refused after nng_aio_stop returned completes the operation with NNG_ESTOPPED)
     let j := { j with ops := updNewest j.ops fun o =>
@@ -142,7 +144,8 @@ def step (j : J) (o : Obs) : J :=
         -- v = 1: the skip flag was set instead of running the callback
         if v = 1 then
           if j.reports + 1 = j.ops.length then
-            { j with reports := j.reports + 1, ops := markReported j.ops j.reports, skipArmed := false }
+            -- (no callback reported this operation's result: nothing to compare a later `peek` with)
+            { j with reports := j.reports + 1, ops := markReported j.ops j.reports, skipArmed := false, lastCb := none }
           else j.fail "exactly-once: skip flag set while another report is pending"
         else { j with skipArmed := false }
       | _ => j
